@@ -173,7 +173,15 @@ def get_labels(
         odc = dc
         if op.name == "LABEL":
             if len(op.args) == 1:
-                symbol_table[op.args[0]] = Label(pc)
+                if out_of_range(pc):
+                    # The address does not fit in 16 bits: report it and put in a dummy
+                    # value, as for data labels.
+                    messages.err(
+                        "label is past the end of the 16-bit address space", loc=op.loc
+                    )
+                    symbol_table[op.args[0]] = Label(0)
+                else:
+                    symbol_table[op.args[0]] = Label(pc)
         elif op.name == "DLABEL":
             if len(op.args) == 1:
                 if out_of_range(dc):
